@@ -355,16 +355,21 @@ def t_check(g, hist, skip=()):
                 t_fmt(hist), T_NAMES[i], not exp, exp), signature='C02:twins:providedBy')
 
 
-def run_twin_history(ops):
+def run_twin_history(ops, broad_skip=False):
     g = TwinGraph()
     t_check(g, ())
     for k, (node, bases) in enumerate(ops):
         g.rebase(node, bases)
-        # outside the claim: a specification that reaches both twins (its resolution order merges by equality); the others are checked
+        # outside the claim: a specification that has both twins among its *direct* bases (the per-base table of the merge is keyed
+        # by equality); one that merely reaches both through different branches is checked like any other
+        # Histories of three steps reach shapes in which the C3 merge itself (membership tests by equality) drops one of two twins
+        # that a specification reaches through different branches - a limitation of the unchanged code that no re-basing history causes;
+        # there (broad_skip, thorough tier) every specification reaching both twins is left out.  At <= 2 steps no history of the
+        # alphabet reaches such a shape, so the quick tier checks those specifications as well.
         skip = set()
         for s in range(T_N):
             r = reach(g.bases, s)
-            if T_TA in r and T_TB in r:
+            if (T_TA in g.bases[s] and T_TB in g.bases[s]) or (broad_skip and T_TA in r and T_TB in r):
                 skip.add(s)
         t_check(g, ops[:k + 1], skip)
 
@@ -380,7 +385,7 @@ def make_e_twins(params, part, nparts):
         idx = [c1] + [pick(o, NA) for o in (o2, o3)[:ln - 1]]
         ops = tuple(T_OPS[i] for i in idx)
         reached(tuple(idx), dict(history=t_fmt(ops)))
-        native(run_twin_history, ops)
+        native(run_twin_history, ops, bool(params.get('broad_skip')))
     return h
 
 
@@ -471,7 +476,7 @@ HARNESSES = [
             oracle='reachability over the final __bases__ and a freshly built graph of the final shape'),
     Harness('e_twins', make_e_twins, kind='E', impls=('py', 'c'),
             tiers=dict(quick=dict(budget_s=90, parts=8, params=dict(L=2)),
-                       thorough=dict(budget_s=1500, parts=16, params=dict(L=3))),
+                       thorough=dict(budget_s=1500, parts=16, params=dict(L=3, broad_skip=True))),
             encoded=_ENC,
             bounds='graph of 10 specifications with two distinct interface objects of the same __name__ and __module__ (IT#a, IT#b; both based on IB), '
                    'sub-interfaces IS, ISa, ISb, a class declaration, a plain Declaration and an instance declaration below them; every history of <=2 '
